@@ -2,7 +2,7 @@
    the user claims once at u2 or first at some u1 and then at u2 — epoch by epoch the same amounts. *)
 From Coq Require Import ZArith List String Lia Bool.
 From MD.Model Require Import Base Ownable Epoch PoolMath Types PoolManager FarmManager.
-From MD.Proofs Require Import Tactics Arith PoolMathProofs MapLemmas WeightProofs FarmProofs FarmCustody ClaimFrame.
+From MD.Proofs Require Import Tactics Arith PoolMathProofs MapLemmas BankProofs WeightProofs FarmProofs RewardProofs FarmCustody ClaimFrame.
 Import ListNotations.
 Open Scope Z_scope.
 
@@ -507,4 +507,110 @@ Proof.
               (with_claimed f (f_claimed f + sum_snd (match farm_rewards s f lp recv u1 (Some lc) with Ok r => r | Err _ => [] end)))
               H Hu Hu1 Hrecv He Hl Hle Hec Hec0 Hcl Hbud Hws1) as [A [R1 HR1]].
   rewrite HR1 in A. destruct (A R1 eq_refl eq_refl) as (R2 & HR2 & HR). exists R1, R2. auto.
+Qed.
+
+(* ---------- one LP denom: the coins of calculate_rewards ---------- *)
+Definition rw (s : fm_state) (lp recv : string) (until : Z) (lc : option Z) (f : farm) : list (Z * Z) :=
+  if until <? f_start f then [] else match farm_rewards s f lp recv until lc with Ok r => r | Err _ => [] end.
+Definition contrib (s : fm_state) (lp recv : string) (until : Z) (lc : option Z) (d : string) (f : farm) : Z :=
+  ind (String.eqb (denom_of (f_asset f)) d) (sum_snd (rw s lp recv until lc f)).
+
+Lemma calc_fold_sum s lp recv until lc farms : forall c0 m0 c m,
+  foldM (fun acc f =>
+           if until <? f_start f then Ok acc else
+           let* rs := farm_rewards s f lp recv until lc in
+           let coins := map (fun er => (denom_of (f_asset f), snd er)) (filter (fun er => 0 <? snd er) rs) in
+           let* total := foldM (fun t er => cadd U128_MAX t (snd er)) rs 0 in
+           let modified' := match rs with [] => snd acc | _ => (snd acc ++ [(f_id f, total)])%list end in
+           Ok ((fst acc ++ coins)%list, modified')) farms (c0, m0) = Ok (c, m) ->
+  (forall d, camt c d = camt c0 d + ssum (contrib s lp recv until lc d) farms) /\
+  (forall f, In f farms -> until <? f_start f = false -> exists R, farm_rewards s f lp recv until lc = Ok R).
+Proof.
+  induction farms as [|f rest IH]; intros c0 m0 c m H; cbn [foldM] in H.
+  - inversion H; subst. split; [intros d; cbn; lia | intros f []].
+  - apply bind_ok in H. destruct H as [[c1 m1] [Hstep H]].
+    destruct (IH _ _ _ _ H) as (Hc & Hok). cbn [ssum].
+    assert (Hcontrib : forall d, contrib s lp recv until lc d f =
+              if until <? f_start f then 0 else ind (String.eqb (denom_of (f_asset f)) d)
+                 (sum_snd (match farm_rewards s f lp recv until lc with Ok r => r | Err _ => [] end))).
+    { intros d. unfold contrib, rw. destruct (until <? f_start f); [cbn; unfold ind; destruct (String.eqb _ d); reflexivity | reflexivity]. }
+    destruct (until <? f_start f) eqn:Es.
+    + inversion Hstep; subst c1 m1. split.
+      * intros d. rewrite Hc, Hcontrib. lia.
+      * intros g [<-|Hg] Hs; [congruence | apply Hok; assumption].
+    + apply bind_ok in Hstep. destruct Hstep as [rs [Hrs Hstep]].
+      apply bind_ok in Hstep. destruct Hstep as [total [Htot Hstep]]. cbn [fst snd] in Hstep. inversion Hstep; subst c1 m1; clear Hstep.
+      pose proof (farm_rewards_nonneg _ _ _ _ _ _ _ Hrs) as Hnn. split.
+      * intros d. rewrite Hc, camt_app, reward_coins_camt by exact Hnn. rewrite Hcontrib, Hrs. lia.
+      * intros g [<-|Hg] Hs; [exists rs; exact Hrs | apply Hok; assumption].
+Qed.
+
+Lemma calculate_rewards_sum s lp recv until c agg m :
+  calculate_rewards s lp recv until = Ok (agg, m) -> lc_get (fm_last_claimed s) recv = Some c -> until <> c ->
+  (forall d, camt agg d = ssum (contrib s lp recv until (Some c) d) (farms_by_lp s lp (fm_max_farms (fm_cfg s)))) /\
+  (forall f, In f (farms_by_lp s lp (fm_max_farms (fm_cfg s))) -> until <? f_start f = false ->
+             exists R, farm_rewards s f lp recv until (Some c) = Ok R).
+Proof.
+  unfold calculate_rewards. intros H Hlc Hne. rewrite Hlc in H.
+  apply bind_ok in H. destruct H as [[] [_ H]].
+  replace (until =? c) with false in H by lia.
+  apply bind_ok in H. destruct H as [[c1 m1] [Hf H]].
+  apply bind_ok in H. destruct H as [agg' [Hagg H]]. inversion H; subst agg' m1; clear H.
+  destruct (calc_fold_sum _ _ _ _ _ _ _ _ _ _ Hf) as [Hc Hok]. split; [|exact Hok].
+  intros d. rewrite (aggregate_camt _ _ d Hagg), Hc. cbn. lia.
+Qed.
+
+Lemma ssum_map {A B} (g : B -> Z) (h : A -> B) l : ssum g (map h l) = ssum (fun x => g (h x)) l.
+Proof. induction l as [|x r IH]; cbn; [reflexivity | rewrite IH; reflexivity]. Qed.
+
+Lemma ssum_ext_in {A} (g h : A -> Z) l : (forall x, In x l -> g x = h x) -> ssum g l = ssum h l.
+Proof.
+  induction l as [|x r IH]; intros H; cbn; [reflexivity|].
+  rewrite (H x (or_introl eq_refl)), IH; [reflexivity|]. intros y Hy. apply H. right. exact Hy.
+Qed.
+
+Lemma ssum_plus {A} (g h : A -> Z) l : ssum (fun x => g x + h x) l = ssum g l + ssum h l.
+Proof. induction l as [|x r IH]; cbn; [reflexivity | rewrite IH; lia]. Qed.
+
+(* One LP denom, all its farms: what a claim at u2 pays (per coin denom) is what a claim at u1 pays plus what the later
+   claim at u2 pays on the state sA the first one leaves (cursor at u1, weights synchronised at u1, each farm's claimed
+   amount increased by what the first claim took from it). *)
+Theorem calculate_rewards_split s sA lp recv c u1 u2 agg m agg1 m1 agg2 m2 e0 x0 e1 w1 e0c w0c :
+  lc_get (fm_last_claimed s) recv = Some c -> c < u1 < u2 -> u1 < U64_MAX ->
+  calculate_rewards s lp recv u2 = Ok (agg, m) ->
+  calculate_rewards s lp recv u1 = Ok (agg1, m1) ->
+  lc_get (fm_last_claimed sA) recv = Some u1 -> fm_cfg sA = fm_cfg s ->
+  farms_by_lp sA lp (fm_max_farms (fm_cfg s))
+    = map (fun f => with_claimed f (f_claimed f + sum_snd (rw s lp recv u1 (Some c) f))) (farms_by_lp s lp (fm_max_farms (fm_cfg s))) ->
+  calculate_rewards sA lp recv u2 = Ok (agg2, m2) ->
+  String.eqb FM recv = false ->
+  w_earliest (fm_weights s) recv lp = Some (e0, x0) -> w_latest (fm_weights s) recv lp = Some (e1, w1) -> c <= e1 <= u1 + 1 ->
+  w_earliest (fm_weights s) FM lp = Some (e0c, w0c) -> e0c <= c + 1 ->
+  wsame lp (synced (fm_weights s) recv lp e0 e1 u1 w1) (fm_weights sA) ->
+  (forall f, In f (farms_by_lp s lp (fm_max_farms (fm_cfg s))) ->
+             0 <= f_claimed f /\ f_claimed f + sum_snd (rw s lp recv u2 (Some c) f) <= amount_of (f_asset f) <= U128_MAX) ->
+  forall d, camt agg d = camt agg1 d + camt agg2 d.
+Proof.
+  intros Hlc Hu Hu1 H2 H1 HlcA Hcfg Hfarms HA Hrecv He Hl Hle Hec Hec0 Hws Hbud d.
+  destruct (calculate_rewards_sum _ _ _ _ _ _ _ H2 Hlc ltac:(lia)) as [S2 Ok2].
+  destruct (calculate_rewards_sum _ _ _ _ _ _ _ H1 Hlc ltac:(lia)) as [S1 _].
+  destruct (calculate_rewards_sum _ _ _ _ _ _ _ HA HlcA ltac:(lia)) as [SA _].
+  rewrite S2, S1, SA, Hcfg, Hfarms, ssum_map, <- ssum_plus. apply ssum_ext_in. intros f Hf.
+  unfold contrib. cbn [with_claimed f_asset].
+  assert (E : sum_snd (rw s lp recv u2 (Some c) f) =
+              sum_snd (rw s lp recv u1 (Some c) f) +
+              sum_snd (rw sA lp recv u2 (Some u1) (with_claimed f (f_claimed f + sum_snd (rw s lp recv u1 (Some c) f))))).
+  { destruct (u2 <? f_start f) eqn:E2.
+    - unfold rw. cbn [with_claimed f_start]. rewrite E2. replace (u1 <? f_start f) with true by lia. reflexivity.
+    - destruct (Ok2 f Hf E2) as [R HR]. destruct (Hbud f Hf) as [Hc0 Hb]. unfold rw at 1 in Hb. rewrite E2, HR in Hb.
+      destruct (one_claim_is_two_claims s f lp recv c u1 u2 R e0 x0 e1 w1 e0c w0c sA HR ltac:(lia) Hu1 Hrecv He Hl Hle Hec Hec0 Hc0 Hb Hws)
+        as (R1 & R2 & HR1 & HR2 & HRR).
+      assert (Hrw1 : rw s lp recv u1 (Some c) f = R1).
+      { unfold rw. rewrite HR1. destruct (u1 <? f_start f) eqn:E1; [|reflexivity].
+        destruct R1 as [|[e r] t]; [reflexivity|]. exfalso.
+        destruct (farm_rewards_entries _ _ _ _ _ _ _ HR1) as (st & _ & _ & Hent).
+        destruct (Hent e r (or_introl eq_refl)) as (_ & A & B & _). lia. }
+      rewrite Hrw1. unfold rw at 1. rewrite E2, HR. unfold rw. cbn [with_claimed f_start]. rewrite E2, HR2.
+      subst R. apply sum_snd_app. }
+  rewrite E. unfold ind. destruct (String.eqb (denom_of (f_asset f)) d); lia.
 Qed.
